@@ -11,6 +11,7 @@ import SkVerif.Lemmas.C14Seg
 import SkVerif.Lemmas.C14Slide
 import SkVerif.Lemmas.C14InterpPanel
 import SkVerif.Lemmas.C14Impute3
+import SkVerif.Lemmas.C14Feat
 namespace SkVerif.C14
 open SkVerif SkVerif.C14
 
@@ -438,6 +439,78 @@ theorem impute_rejects_bad_configuration (z : OSeries) (v : Rat) (mv : Option Ra
   cases z <;> simp
 
 
+/-! ## RandomIntervalFeatureExtractor (given the fitted intervals; feature functions abstract) -/
+
+/-- one row per instance, in order; for ANY feature functions and ANY fitted intervals, column
+`a · n_intervals + b` of a row is feature `a` applied to the slice `[start_b, end_b)` of that
+instance's series -/
+theorem rife_eq_spec {β} (fs : List (List Rat → β)) (ivs : List (Int × Int)) (X : Panel) (tbl : List (List Rat))
+    (ht : univariateTable X = .ok tbl) :
+    rifeWith fs ivs X = .ok (tbl.map (rifeRow fs ivs)) ∧
+    (∀ row, (rifeRow fs ivs row).length = fs.length * ivs.length) ∧
+    (∀ row a b, b < ivs.length → (rifeRow fs ivs row)[a * ivs.length + b]? =
+      (fs[a]?).bind (fun f => (ivs[b]?).map (fun iv => f (pySlice row iv.1 iv.2)))) :=
+  ⟨Lem.rifeWith_eq fs ivs X tbl ht, fun row => Lem.rifeRow_length fs ivs row,
+   fun row a b hb => Lem.rifeRow_getElem? fs ivs row a b hb⟩
+
+/-- the slice of an interval lying inside the series is its values at positions `start … end-1` -/
+theorem rife_interval_slice (row : List Rat) (s e : Nat) (he : e ≤ row.length) :
+    pySlice row (s : Int) (e : Int) = (row.drop s).take (e - s) := Lem.pySlice_nat row s e he
+
+/-! ## Row transformers -/
+
+/-- SeriesToPrimitivesRowTransformer / SeriesToSeriesRowTransformer: for ANY wrapped transformer `g`
+(acting on one instance's columns), the output is `g` applied to every instance, one row per instance
+in input order; with a column-wise `g = map f` every cell `(i, j)` becomes `f` of cell `(i, j)`. -/
+theorem row_transformers_eq_map {β} (gp : Inst → List β) (gs : Inst → Inst) (X : Panel) (hX : WellShaped X) (T : Nat)
+    (h : ∀ inst ∈ X, ∀ c ∈ inst, c.length = T) :
+    rowPrimitives gp X = .ok (X.map gp) ∧ rowSeries gs X = .ok (X.map gs) := by
+  simp [rowPrimitives, rowSeries, Lem.toNumpy3d_ok X hX T h, bind, Except.bind, pure, Except.pure]
+
+theorem row_transformer_cellwise (f : Cell → Cell) (X : Panel) (i j : Nat) :
+    ((X.map (fun inst => inst.map f))[i]?).bind (fun inst => inst[j]?) =
+      ((X[i]?).bind (fun inst => inst[j]?)).map f := by
+  simp only [List.getElem?_map]
+  cases X[i]? with
+  | none => rfl
+  | some inst => simp [List.getElem?_map]
+
+/-! ## AutoCorrelationTransformer -/
+
+/-- the coefficients are `r_k = c_k / c_0` with `c_k = Σ_t (x_t − m)(x_{t+k} − m) / n` (or `/(n−k)`
+when adjusted), for `k = 0 … min(n_lags, n−1)` -/
+theorem acf_eq_spec (adjusted : Bool) (nlags : Nat) (xs : List Rat) (hx : xs ≠ [])
+    (hvar : Spec.lagProduct (Spec.deviations xs) 0 ≠ 0) :
+    acf adjusted (nlags : Int) xs =
+      .ok ((List.range (min (nlags + 1) xs.length)).map (fun k => some (Spec.acfCoeff adjusted xs k))) :=
+  Lem.acf_eq_spec adjusted nlags xs hx hvar
+
+theorem acf_lag_zero_is_one (adjusted : Bool) (xs : List Rat) (hx : xs ≠ [])
+    (hvar : Spec.lagProduct (Spec.deviations xs) 0 ≠ 0) : Spec.acfCoeff adjusted xs 0 = 1 :=
+  Lem.acfCoeff_zero adjusted xs hx hvar
+
+/-! ## CosineTransformer, TabularToSeriesAdaptor (library functions uninterpreted) -/
+
+/-- for ANY function `f` (np.cos): same length, position `i` holds `f` of position `i` -/
+theorem cos_elementwise (f : Rat → Rat) (z : List Rat) (i : Nat) :
+    (mapSeries f z).length = z.length ∧ (mapSeries f z)[i]? = (z[i]?).map f := by
+  simp [mapSeries]
+
+/-- for ANY column transformer: column `j` of the result is the transformer fitted on column `j` of the
+fit data applied to column `j` -/
+theorem adaptor_columnwise {P} (t : ColTransformer P) (Zfit Z : List (List Rat)) (h : Zfit.length = Z.length)
+    (j : Nat) :
+    ∃ r, adaptor t Zfit Z = .ok r ∧ r.length = Z.length ∧
+      r[j]? = (Zfit[j]?).bind (fun cf => (Z[j]?).map (fun c => t.apply (t.fit cf) c)) :=
+  Lem.adaptor_getElem? t Zfit Z h j
+
+/-- the MinMaxScaler instance used in the correspondence is `(x − min) / (max − min)` -/
+theorem minMax_closed_form (col : List Rat) (lo hi : Rat) (hlo : min? col = some lo) (hhi : max? col = some hi)
+    (hne : hi ≠ lo) (c : List Rat) :
+    minMax.apply (minMax.fit col) c = c.map (fun x => (x - lo) / (hi - lo)) :=
+  Lem.minMax_apply col lo hi hlo hhi hne c
+
+
 -- non-vacuity
 example : WellShaped [[[1, 2, 3], [4, 5]], [[6], [7, 8, 9, 10]]] :=
   ⟨by simp, by intro i hi; simp at hi; rcases hi with rfl | rfl <;> simp⟩
@@ -463,5 +536,9 @@ example : Spec.IsNextValid [none, some 1, none, none, some 4] 2 4 4 := by
   subst this; rfl
 example : impute .linear none none [none, some 1, none, none, some 4] = .ok [some 1, some 1, some 2, some 3, some 4] := by
   decide +kernel
+example : rife [.mean, .max] [(1, 3), (0, 2)] [[[1, 2, 3, 4]]] = .ok [[some (5 / 2), some (3 / 2), some 3, some 2]] := by
+  decide +kernel
+example : Spec.lagProduct (Spec.deviations [1, 3, 2]) 0 ≠ 0 := by decide +kernel
+example : acf false 1 [1, 3, 2] = .ok [some 1, some (-1 / 2)] := by decide +kernel
 
 end SkVerif.C14
